@@ -46,6 +46,10 @@ func genDecls(t *Tape, envProb int) *DeclSet {
 			d.Name = shortPool[i] + " " + longPool[i]
 		}
 		d.Kind = []ValKind{KBool, KBool, KString, KString, KInt, KFloat, KStrings, KInts, KFloats}[t.Draw(9)]
+		if i == nOpt-1 && t.Draw(12) == 0 {
+			// an application may declare its own -h (the library's help request still wins on the command line)
+			d.Name = []string{"h", "h host", "help"}[t.Draw(3)]
+		}
 		if t.Draw(8) < envProb {
 			d.EnvVars = []int{i}
 		}
@@ -221,7 +225,7 @@ func (g *specGen) atom(depth int) *specNode {
 		}
 		n = &specNode{kind: nOptRef, decl: d, spell: spell}
 		if d.Kind != KBool && t.Draw(3) == 0 {
-			n.annot = "=<" + []string{"v", "some value", "n"}[t.Draw(3)] + ">"
+			n.annot = "=<" + []string{"v", "some value", "n", "naïve café ☕ value", "值", "a-b_c.d"}[t.Draw(6)] + ">"
 		}
 	case 1:
 		if len(g.ds.Args) == 0 {
